@@ -69,6 +69,9 @@ impl Channel {
             counterparty_secrets: final(self).enforcement_state.counterparty_secrets,
             ..es_set_cp_revoke(old(self).enforcement_state, (revoke_num + 1) as u64) }),                           //[C03.cprevoke.frame]
         r.is_ok() && cp_strict() && cp_inv(old(self).enforcement_state) ==> cp_inv(final(self).enforcement_state), //[C03.cprevoke.keeps-window]
+        // C03: the revocation counter (what "revoked by a secret it verified" is read from when the next commitment is
+        // signed) moves only when the revocation is accepted
+        final(self).enforcement_state.next_counterparty_revoke_num != old(self).enforcement_state.next_counterparty_revoke_num ==> r.is_ok(),   //[C03.cprevoke.counter-moves-only-on-accept]
         r.is_err() ==> final(self).enforcement_state == old(self).enforcement_state
             && final(self).persisted == old(self).persisted,                                                       //[C10.cprevoke.err-frame]
         r.is_ok() ==> final(self).persisted@ == final(self).enforcement_state,                                     //[C11.cprevoke.persisted]
